@@ -183,11 +183,17 @@ where
                     let mut runner = TestRunner::new_with_rng(cfg, rng);
                     let acc = std::cell::RefCell::new(Acc::default());
                     let failed = std::cell::Cell::new(false);
+                    let no_shrink = std::cell::Cell::new(false);
                     let last_fail: std::cell::RefCell<Option<Failure>> = std::cell::RefCell::new(None);
                     let s = strat();
                     let r = runner.run(&s, |case| {
                         if failed.get() {
                             tick();
+                            // a case that does not terminate costs its whole budget on every
+                            // re-run: report it unshrunk (every shrink candidate "passes")
+                            if no_shrink.get() {
+                                return Ok(());
+                            }
                             // shrinking: do not count, but remember the failure of the candidate
                             let mut scratch = Acc::default();
                             return match test(&case, &mut scratch) {
@@ -209,6 +215,9 @@ where
                             Ok(()) => Ok(()),
                             Err(f) => {
                                 failed.set(true);
+                                if f.sig.ends_with("/unbounded") || f.sig.ends_with("/hang") || f.sig.ends_with("/call-did-not-terminate") || f.sig.ends_with("/mount-hang") {
+                                    no_shrink.set(true);
+                                }
                                 stop.store(true, Ordering::Relaxed);
                                 let m = f.sig.clone();
                                 *last_fail.borrow_mut() = Some(f);
